@@ -119,6 +119,18 @@ def encCmd (kind : String) (toks : List String) : String :=
     | some v => renderRes hexBytes (Impl.V2.encodeOvw v.1 v.2) | none => "bad-op value"
   | "v2.track" => match runP pTrack toks with
     | some v => renderRes hexBytes (Impl.V2.encodeTrack v.1 v.2) | none => "bad-op value"
+  | "v1.beat" => match runP pBeat1 toks with
+    | some v => renderRes hexBytes (Impl.V1.encodeBeat v) | none => "bad-op value"
+  | "v1.cues" => match runP pCues1 toks with
+    | some v => renderRes hexBytes (Impl.V1.encodeCues v) | none => "bad-op value"
+  | "v1.loops" => match runP pLoops1 toks with
+    | some v => renderRes hexBytes (Impl.V1.encodeLoops v) | none => "bad-op value"
+  | "v1.ovw" => match runP pWave toks with
+    | some v => renderRes hexBytes (Impl.V1.encodeOvw v) | none => "bad-op value"
+  | "v1.hires" => match runP pWave toks with
+    | some v => renderRes hexBytes (Impl.V1.encodeHires v) | none => "bad-op value"
+  | "v1.track" => match runP pTrack1 toks with
+    | some v => renderRes hexBytes (Impl.V1.encodeTrack v) | none => "bad-op value"
   | _ => "bad-op kind"
 
 def decCmd (kind : String) (payload : Bytes) : String :=
@@ -128,6 +140,12 @@ def decCmd (kind : String) (payload : Bytes) : String :=
   | "v2.loops" => renderRes sLoops (Impl.V2.decodeLoops payload)
   | "v2.ovw" => renderRes sOvw (Impl.V2.decodeOvw payload)
   | "v2.track" => renderRes sTrack (Impl.V2.decodeTrack payload)
+  | "v1.beat" => renderRes sBeat1 (Impl.V1.decodeBeat payload)
+  | "v1.cues" => renderRes sCues1 (Impl.V1.decodeCues payload)
+  | "v1.loops" => renderRes sLoops1 (Impl.V1.decodeLoops payload)
+  | "v1.ovw" => renderRes sWave (Impl.V1.decodeOvw payload)
+  | "v1.hires" => renderRes sWave (Impl.V1.decodeHires payload)
+  | "v1.track" => renderRes sTrack1 (Impl.V1.decodeTrack payload)
   | _ => "bad-op kind"
 
 def renderSpec {α} (f : α → String) : Option α → String
